@@ -406,7 +406,9 @@ def equivalent_gens(r, G):
         for g in H:
             if g is not l and r.random() < 0.4:
                 t = r.choice([1, -1, 2])
-                g[2] = [x + t * y for x, y in zip(g[2], l[2])]
+                new = [x + t * y for x, y in zip(g[2], l[2])]
+                if g[0] != "l" or any(new):          # a null line cannot be built
+                    g[2] = new
     for l in lines:
         k = r.choice([1, 2, -1, 3])
         l[2] = [k * x for x in l[2]]
@@ -454,6 +456,20 @@ def twins_case(r, cid):
     n = r.choice([1, 2, 2, 3, 3, 4])
     L = ["case %s" % cid]
     route = r.random()
+    if route < 0.2 and n >= 2:
+        # equality focus: several equalities, rescaled and combined, both congruence systems minimized, generators
+        # absent or not minimized (the congruence shortcut of operator== must not take a syntactic difference for inequality)
+        C = [_cg_tuple(r, n, 0.9) for _ in range(r.randint(2, min(3, n)))]
+        D = equivalent_cgs(r, C)
+        L.append("new 0 dim %d cgs %d %s" % (n, len(C), " ".join(map(_cg_str, C))))
+        L.append("new 1 dim %d cgs %d %s" % (n, len(D), " ".join(map(_cg_str, D))))
+        for x in (0, 1):
+            L += [l % ((x,) * l.count("%d")) for l in r.choice([["obs %d mcgs"], ["obs %d mcgs"], ["inters %d %d", "obs %d mcgs"],
+                                                                ["obs %d mcgs", "obs %d mcgs"], ["q %d is_universe", "obs %d mcgs"]])]
+        qs = ["q2 0 1 equals", "q2 1 0 equals", "q2 0 1 contains", "q2 1 0 contains", "q2 0 1 strictly_contains", "q2 0 1 disjoint"]
+        first = ["q2 %d %d equals" % r.choice([(0, 1), (1, 0)])] + r.sample(qs, 3)
+        L += first + first[:2] + ["end"]
+        return "\n".join(L) + "\n"
     if route < 0.55:
         C = [_cg_tuple(r, n, 0.55) for _ in range(r.randint(1, min(4, n + 1)))]
         L.append("new 0 dim %d cgs %d %s" % (n, len(C), " ".join(map(_cg_str, C))))
